@@ -19,6 +19,7 @@ package main
 
 import (
 	"bufio"
+	"bytes"
 	"encoding/json"
 	"fmt"
 	"os"
@@ -43,6 +44,7 @@ type c17Run struct {
 	trees    []int
 	alphabet string
 	extra    string
+	sweep    string // SweepNames definition ("" = NoSweep)
 	maxLen   int
 	maxOps   int
 	shards   int
@@ -58,12 +60,16 @@ func c17CfgText(r c17Run, dev string, emit bool, invs, props []string) string {
 	for i, t := range r.trees {
 		ts[i] = fmt.Sprint(t)
 	}
+	sweep := r.sweep
+	if sweep == "" {
+		sweep = "NoSweep"
+	}
 	e := "FALSE"
 	if emit {
 		e = "TRUE"
 	}
-	s := fmt.Sprintf("CONSTANTS\n Alphabet <- %s\n MaxLen = %d\n ExtraNames <- %s\n ImgNames <- Images\n Configs = {%s}\n Trees = {%s}\n MaxOps = %d\n Shards = %d\n Deviation = \"%s\"\n EmitOn = %s\nINIT Init\nNEXT Next\nVIEW view\n",
-		r.alphabet, r.maxLen, r.extra, strings.Join(q, ","), strings.Join(ts, ","), r.maxOps, r.shards, dev, e)
+	s := fmt.Sprintf("CONSTANTS\n Alphabet <- %s\n MaxLen = %d\n ExtraNames <- %s\n SweepNames <- %s\n ImgNames <- Images\n Configs = {%s}\n Trees = {%s}\n MaxOps = %d\n Shards = %d\n Deviation = \"%s\"\n EmitOn = %s\nINIT Init\nNEXT Next\nVIEW view\n",
+		r.alphabet, r.maxLen, r.extra, sweep, strings.Join(q, ","), strings.Join(ts, ","), r.maxOps, r.shards, dev, e)
 	if len(invs) > 0 {
 		s += "INVARIANTS " + strings.Join(invs, " ") + "\n"
 	}
@@ -616,23 +622,32 @@ func c17Replay(c *Ctx, cfg string, emitted string, hdr *c17Hdr, shards int, dir 
 		files[s].WriteByte('\n')
 	}
 	n := 0
+	// The transitions are visited tree by tree (TLC's workers interleave the initial states in the emitted file; a child
+	// that alternates between trees spends its time rebuilding them).  Case ids follow this order in every pass.
 	each := func(fn func(id int, g *c17Gen) error) error {
 		id := 0
-		return ReadLines(emitted, func(line []byte) error {
-			if strings.HasPrefix(string(line), `{"init"`) {
-				return nil
-			}
-			var g c17Gen
-			if err := json.Unmarshal(line, &g); err != nil {
+		for t := 0; t < 3; t++ {
+			tag := []byte(fmt.Sprintf(`"t":%d,`, t))
+			err := ReadLines(emitted, func(line []byte) error {
+				if strings.HasPrefix(string(line), `{"init"`) || !bytes.Contains(line, tag) {
+					return nil
+				}
+				var g c17Gen
+				if err := json.Unmarshal(line, &g); err != nil {
+					return err
+				}
+				if g.T != t || g.C != cfg || (filter != nil && !filter(&g)) {
+					return nil
+				}
+				err := fn(id, &g)
+				id++
+				return err
+			})
+			if err != nil {
 				return err
 			}
-			if g.C != cfg || (filter != nil && !filter(&g)) {
-				return nil
-			}
-			err := fn(id, &g)
-			id++
-			return err
-		})
+		}
+		return nil
 	}
 	err := each(func(id int, g *c17Gen) error {
 		cs := c17BuildCase(id, g, cwd)
@@ -880,8 +895,11 @@ func checkC17(c *Ctx) {
 		gw.Add(1)
 		go func(p plan) {
 			defer gw.Done()
-			run := c17Run{configs: []string{p.cfg}, trees: []int{0, 1, 2}, alphabet: "Alphabet10", extra: "AllPinned",
+			run := c17Run{configs: []string{p.cfg}, trees: []int{0, 1, 2}, alphabet: "Alphabet10", extra: "AllPinned", sweep: "ByteSweep",
 				maxLen: p.maxLen, maxOps: 1, shards: p.shards, workers: p.tlcW}
+			if p.cfg == "unrestricted" {
+				run.sweep = "" // observer self-test only: the sweep adds nothing there
+			}
 			r, err := c.TLC(TLCOpt{Spec: "RestrictIO_MC", Cfg: c17CfgText(run, "none", true, c17Invs, c17Props), Workers: p.tlcW, Timeout: 20 * time.Minute})
 			if err != nil {
 				c.Infra(err)
@@ -912,7 +930,9 @@ func checkC17(c *Ctx) {
 			if p.cfg == "unrestricted" {
 				sj = newC17Judge(p.cfg, cwd) // binding self-test (a): the same observations judged by the restricted rules
 			}
+			tReplay := time.Now()
 			n, err := c17Replay(c, p.cfg, r.Emitted, h, p.kids, dir, chroot, filter, j, sj)
+			replayS := time.Since(tReplay).Seconds()
 			if err != nil {
 				c.Infra(err)
 				return
@@ -925,8 +945,8 @@ func checkC17(c *Ctx) {
 				exhaustive = false
 			}
 			gmu.Unlock()
-			c.Note("GEN %s: names<=%d (%d names plain+suffixed, +pinned) x {save,load} x 2 trees + pinned names in the fault tree: TLC %d transitions / %d states in %.1fs; %d cases replayed in %d child(ren), %d evaluations, %d tree walks, accepted save=%d load=%d, model_disagreement=%d",
-				p.cfg, p.maxLen, want, r.Generated, r.Distinct, r.Wall.Seconds(), n, p.kids, j.asks, j.walked, j.accepted["save"], j.accepted["load"], j.disagree)
+			c.Note("GEN %s: names<=%d (%d names plain+suffixed, +pinned) x {save,load} x 2 trees + 256-byte sweep (2048 names) + pinned names in the fault tree: TLC %d transitions / %d states in %.1fs; %d cases replayed in %d child(ren) in %.1fs, %d evaluations, %d tree walks, accepted save=%d load=%d, model_disagreement=%d",
+				p.cfg, p.maxLen, want, r.Generated, r.Distinct, r.Wall.Seconds(), n, p.kids, replayS, j.asks, j.walked, j.accepted["save"], j.accepted["load"], j.disagree)
 			for _, ex := range j.disagreeEx {
 				c.Note("model_disagreement %s", ex)
 			}
@@ -1313,4 +1333,42 @@ func replayC17(rp map[string]any) (bool, string) {
 		return false, strings.Join(msgs, "; ")
 	}
 	return true, ""
+}
+
+// debugging aid: `vh worker c17cases <emitted.ndjson> <config> <cases.ndjson>` writes the cases file a child would get
+func init() {
+	workers["c17cases"] = func(args []string) {
+		if len(args) < 3 {
+			fmt.Fprintln(os.Stderr, "usage: worker c17cases <emitted> <config> <out>")
+			os.Exit(2)
+		}
+		hdr, err := c17Header(args[0])
+		if err != nil {
+			fmt.Fprintln(os.Stderr, err)
+			os.Exit(2)
+		}
+		f, _ := os.Create(args[2])
+		w := bufio.NewWriter(f)
+		hb, _ := json.Marshal(c17HdrLine{Hdr: hdr})
+		w.Write(hb)
+		w.WriteByte('\n')
+		id := 0
+		_ = ReadLines(args[0], func(line []byte) error {
+			if strings.HasPrefix(string(line), `{"init"`) {
+				return nil
+			}
+			var g c17Gen
+			if json.Unmarshal(line, &g) != nil || g.C != args[1] {
+				return nil
+			}
+			cs := c17BuildCase(id, &g, c17U(hdr.Cwd))
+			id++
+			b, _ := json.Marshal(&cs)
+			w.Write(b)
+			w.WriteByte('\n')
+			return nil
+		})
+		w.Flush()
+		f.Close()
+	}
 }
